@@ -40,7 +40,7 @@ class C17(Check):
     assumptions = ["fault points are the hook points of libwild/src/verif.rs (cfg wild_verif); faults inside phases are reached "
                    "only through the per-input open points and external signals",
                    "byte-equality with the fault-free link relies on deterministic output (C06)"]
-    quick_cases = 8
+    quick_cases = 16
     thorough_cases = 400
     max_workers = 8
 
